@@ -1,0 +1,17 @@
+//go:build !verif
+
+// Package verifhook provides build-tag guarded observation points used by the runtime monitors in /verif.
+// With the verif tag off every call compiles to nothing.
+package verifhook
+
+// Handler is called at every hook point reached while a handler is installed.
+type Handler func(point string, key any, val any)
+
+// Enabled reports whether hooks are compiled in.
+const Enabled = false
+
+// Set does nothing without the verif build tag.
+func Set(Handler) {}
+
+// At does nothing without the verif build tag.
+func At(string, any, any) {}
